@@ -221,13 +221,24 @@ func countScenarios(tier string) []*mc.Scenario {
 		},
 	})
 	lim := &mc.Scenario{
-		Name: "count/limit-256", Props: props, Init: basicInit, Monitors: allMons(), MaxPoints: 4000,
+		Name: "count/limit-256", Props: props, Monitors: allMons(), MaxPoints: 4000,
+		Init: func(w *mc.World) {
+			basicInit(w)
+			w.Svc.Call = func(name, method, payload string) string {
+				if method == "ref" || method == "new" {
+					return `{"resource":{"rid":"test.y"}}`
+				}
+				return `{"result":{"ok":true}}`
+			}
+		},
 		Bound: map[string]int{"quick": 0, "thorough": 1},
 	}
 	var script []mc.ClientReq
 	for i := 0; i < 258; i++ {
 		script = append(script, syncReq("subscribe.test.y", "", 0))
 	}
+	// resource responses that name the resource at its limit: one reply each, with an error entry
+	script = append(script, syncReq("call.test.m.ref", "", 0), syncReq("auth.test.m.ref", "", 0), syncReq("new.test.c", "", 0))
 	script = append(script, syncReq("unsubscribe.test.y", `{"count":257}`, 0), syncReq("unsubscribe.test.y", `{"count":256}`, 0), syncReq("unsubscribe.test.y", "", 0), syncReq("subscribe.test.y", "", 0))
 	lim.Conns = []mc.ConnSpec{conn(latest, script...)}
 	out = append(out, lim)
